@@ -48,7 +48,8 @@ template <class C> struct Scenario {
     ScnSpec sp; Mem *mem; ArenaMM *ro;
     std::basic_string<C> ta, tb; Uri u, dest; RoUri<C> ra, rb; QL *ql; int qcount; C *composed;
     std::vector<std::basic_string<C> > ks, vs; std::vector<QL> nodes; bool u_live, dest_live;
-    Scenario(const ScnSpec &s, Mem *m, ArenaMM *r) : sp(s), mem(m), ro(r), ql(0), qcount(0), composed(0), u_live(false), dest_live(false) { memset(&u, 0, sizeof u); memset(&dest, 0, sizeof dest); }
+    Uri oa, ob; bool owned_inputs; Str in_key_a, in_key_b;      // resolve / shorten with p2 == 1: both inputs are owner URIs made through the manager under test
+    Scenario(const ScnSpec &s, Mem *m, ArenaMM *r) : sp(s), mem(m), ro(r), ql(0), qcount(0), composed(0), u_live(false), dest_live(false), owned_inputs(false) { memset(&u, 0, sizeof u); memset(&dest, 0, sizeof dest); memset(&oa, 0, sizeof oa); memset(&ob, 0, sizeof ob); }
 
     int parse_into(Uri *x, const std::basic_string<C> &t) { const C *ep = 0; UriMemoryManager *mm = mem->mm(); return mm ? A::ParseSingleUriExMm(x, t.data(), t.data() + t.size(), &ep, mm) : A::ParseSingleUriEx(x, t.data(), t.data() + t.size(), &ep); }
     // builds the inputs; injection is off while this runs
@@ -58,7 +59,14 @@ template <class C> struct Scenario {
         case K_PARSE: return true;
         case K_MAKEOWNER: u_live = true; return parse_into(&u, ta) == URI_SUCCESS;
         case K_NORMALIZE: { u_live = true; if (parse_into(&u, ta) != URI_SUCCESS) return false; if (sp.p2) { UriMemoryManager *mm = mem->mm(); return (mm ? A::MakeOwnerMm(&u, mm) : A::MakeOwner(&u)) == URI_SUCCESS; } return true; }
-        case K_RESOLVE: case K_SHORTEN: ro->arena.reset(); ra = make_ro<C>(*ro, sp.a); rb = make_ro<C>(*ro, sp.b); ro->arena.protect(); return ra.ok && rb.ok;
+        case K_RESOLVE: case K_SHORTEN:
+            if (sp.p2 == 1) {   // owner inputs (parsed, then uriMakeOwner): a callee that releases or rewrites what an owner input holds shows in the ledger / in the key
+                UriMemoryManager *mm = mem->mm(); owned_inputs = true;
+                if (parse_into(&oa, ta) != URI_SUCCESS || parse_into(&ob, tb) != URI_SUCCESS) return false;
+                if ((mm ? A::MakeOwnerMm(&oa, mm) : A::MakeOwner(&oa)) != URI_SUCCESS || (mm ? A::MakeOwnerMm(&ob, mm) : A::MakeOwner(&ob)) != URI_SUCCESS) return false;
+                in_key_a = observe<C>(oa).key(); in_key_b = observe<C>(ob).key(); ra.u = &oa; rb.u = &ob; return true;
+            }
+            ro->arena.reset(); ra = make_ro<C>(*ro, sp.a); rb = make_ro<C>(*ro, sp.b); ro->arena.protect(); return ra.ok && rb.ok;
         case K_DISSECT: return true;
         case K_COMPOSE: {
             std::vector<Str> items = split(sp.a, '\x01'); ks.resize(items.size()); vs.resize(items.size()); nodes.resize(items.size());
@@ -89,8 +97,11 @@ template <class C> struct Scenario {
     }
     void free_uri(Uri *x) { UriMemoryManager *mm = mem->mm(); if (mm) A::FreeUriMembersMm(x, mm); else A::FreeUriMembers(x); }
     // what a caller does afterwards, whatever the call returned: free the members of the URI it passed for output or in-place change
+    // owner inputs must come out of the call exactly as they went in
+    Str inputs_changed() { if (!owned_inputs) return ""; if (observe<C>(oa).key() != in_key_a) return "the first input URI (an owner) was modified or its memory released"; if (observe<C>(ob).key() != in_key_b) return "the second input URI (an owner) was modified or its memory released"; return ""; }
     void cleanup(int rc) {
         UriMemoryManager *mm = mem->mm();
+        if (owned_inputs) { free_uri(&oa); free_uri(&ob); }
         if (u_live) free_uri(&u);
         if (dest_live) free_uri(&dest);
         if (sp.kind == K_DISSECT && rc == URI_SUCCESS) { if (mm) A::FreeQueryListMm(ql, mm); else A::FreeQueryList(ql); ql = 0; }
@@ -142,11 +153,12 @@ static inline std::vector<ScnSpec> scenario_specs(int size) {
         "t://1.2.3.4/a/b/..", "t://[::1]/a/b/../..", "s://1.2.3.4/x", "t:/.//x", "t:/a/..//x", "t:/a/b/..", "//1.2.3.4/a/b/..", "//[::2]/a/./b/../..", "//g/a/b/..",
         "/a/b/..", "/a/b/../..", "/a/..//x", "a/b/..", "a/b/../..", "..//x", "./..//x", "../..//x/y/.." };
     refs.insert(refs.end(), rx.begin(), rx.end());
-    if (size >= 1) for (auto b2 : { "s:/a", "s:/", "s://h", "s://1.2.3.4:1/a/b/c/d", "s://h/a/./b/../c/d", "s:/a/../b/./c", "s:a/./b/.." }) bases.push_back(b2);
+    if (size >= 1) for (auto b2 : { "s:/a", "s:/", "s://h", "s://1.2.3.4:1/a/b/c/d", "s://h/a/./b/../c/d", "s:/a/../b/./c", "s:a/./b/..", "s://1.2.3.4/a/./b/c", "s://u@[::1]:1/x/../y/z" }) bases.push_back(b2);
     for (auto &r : refs) for (auto &b : bases) for (int o = 0; o < 2; o++) add(K_RESOLVE, r, b, o, 0);
+    if (size >= 1) for (auto &r : rx) for (auto &b : bases) add(K_RESOLVE, r, b, 0, 1);                   // the same with owner inputs
     std::vector<Str> srcs = { "s://h/a/b/c", "s://h/a", "s://h", "s://h/", "s:/a/b", "s:a/b", "s:", "s://u@[::1]:1/x", "t://1.2.3.4/x", "s://h/a/b?q#f", "s://h//x", "s:/c:d", "s:c:d/e", "s://g/a/../b", "a/b", "s://h/a/b/c/d/e/f",
         "s://h/a//b", "s://h/a/b//", "s:/a//b", "s:/", "s:/a/", "s://h/a/", "s:/a/b/", "s://u@[::1]:1/", "s://u@[::1]:1", "t://1.2.3.4/x//y", "t://1.2.3.4/x//", "s:/a/c:d", "s://h/c:d" };
-    for (auto &s : srcs) for (auto &b : bases) for (int m = 0; m < 2; m++) add(K_SHORTEN, s, b, m, 0);
+    for (auto &s : srcs) for (auto &b : bases) for (int m = 0; m < 2; m++) { add(K_SHORTEN, s, b, m, 0); if (size >= 1) add(K_SHORTEN, s, b, m, 1); }
     { Ctx dummy; dummy.nworkers = 1; all_strings(dummy, "&=a%+", size == 0 ? 3 : 4, [&](const Str &q) { add(K_DISSECT, q, "", 1, URI_BR_DONT_TOUCH); if (size >= 1) add(K_DISSECT, q, "", 0, URI_BR_TO_CRLF); }); add(K_DISSECT, "a=%0D%0A&b=+%41&&c", "", 1, URI_BR_TO_LF); }
     const char *K[] = { "", "a", "&=", " \n" }; const char *V[] = { 0, "", "b", "%\r" };
     for (auto k1 : K) for (auto v1 : V) { add(K_COMPOSE, enc_items({ { k1, v1 } }), "", 1, 1); for (auto k2 : K) for (auto v2 : V) add(K_COMPOSE, enc_items({ { k1, v1 }, { k2, v2 } }), "", (int)(strlen(k2) & 1), 1); }
